@@ -289,13 +289,100 @@ def _v5(ctx: Ctx, f: Func, loop: ast.While, var: str, dec_calls, body_nodes) -> 
             if about_emptiness(cond):
                 # must be the "empty" polarity: len(x)==0 true, len(x)>0 false, `not x` true, x false
                 empty = _empty_polarity(cond, pol, produced)
-                if empty:
+                if empty and not any(isinstance(n, ast.Name) and n.id in counters for c2, _ in facts for n in ast.walk(c2)):
                     return "V5", f"no-progress exit: {norm(e)} when the decoder produced nothing"
-            if any(isinstance(n, ast.Name) and n.id in counters for n in ast.walk(cond)):
-                return "V5", f"no-progress exit via stall counter: {norm(e)}"
+    if counters:
+        # stall-counter idiom, decided on the paths of ONE iteration (loop head -> loop head): an iteration that may have produced nothing either
+        # passes the false outcome of the decoder's 'no input left' test (the decoder still holds input: it makes progress on that side), or it
+        # steps a counter by a positive constant, does not reset it afterwards, and passes the test of that counter whose true outcome leaves the loop
+        head = cfg.by_ast[loop]
+        start = next(s_ for s_ in head.succ if s_.kind == "true")
+        inside = {id(x) for st in loop.body for x in ast.walk(st)} | {id(loop.test)}
+        paths: List[List] = []
+
+        def dfs(n, path, seen):
+            if len(paths) > 400:
+                return
+            for s_ in n.succ:
+                if s_.id in n.exc_succ:
+                    continue
+                if s_ is head:
+                    paths.append(path + [s_])
+                    continue
+                a_ = getattr(s_, "ast", None)
+                if s_.kind in ("join",) or (a_ is not None and id(a_) in inside) or s_.kind in ("true", "false"):
+                    if a_ is not None and id(a_) not in inside and s_.kind not in ("join",):
+                        continue
+                    if id(s_) in seen:
+                        continue
+                    dfs(s_, path + [s_], seen | {id(s_)})
+        dfs(start, [start], {id(start)})
+        if not paths or len(paths) > 400:
+            return "", "the iteration paths of the decoder loop could not be enumerated"
+        for path in paths:
+            facts = [(a_, ap) for n in path if n.kind in ("true", "false") and n is not start for a_, ap in q.atoms(n.ast, n.kind == "true")]
+            nonempty = any(about_emptiness(cd) and _nonempty_polarity(cd, pol, produced) for cd, pol in facts)
+            if nonempty:
+                continue  # the iteration produced output: the loop variable decreases (V5's premise, checked by the caller's loop-variable analysis)
+            still_input = any(isinstance(cd, ast.Call) and attr_tail(cd) in ("is_exhausted", "eof", "needs_input") and not pol for cd, pol in facts)
+            if still_input:
+                continue
+            # `if len(x) == 0 and dec.is_exhausted(): <stall arm> else: ...` - the else path knows that the conjunction is false: something was
+            # produced, or input is left
+            either = any((not pol) and isinstance(cd, ast.BoolOp) and isinstance(cd.op, ast.And) and all(
+                (about_emptiness(v) and _empty_polarity(v, True, produced)) or (isinstance(v, ast.Call) and attr_tail(v) in ("is_exhausted", "eof")) for v in cd.values)
+                and any(isinstance(v, ast.Call) and attr_tail(v) in ("is_exhausted", "eof") for v in cd.values) for cd, pol in facts)
+            if either:
+                continue
+            ok = False
+            for cname in sorted(counters):
+                idx_step = [i for i, n in enumerate(path) if n.kind == "stmt" and isinstance(n.ast, ast.AugAssign) and isinstance(n.ast.op, ast.Add) and norm(n.ast.target) == cname
+                            and isinstance(n.ast.value, ast.Constant) and isinstance(n.ast.value.value, int) and n.ast.value.value > 0]
+                if not idx_step:
+                    continue
+                i0 = idx_step[-1]
+                reset_after = any(n.kind == "stmt" and isinstance(n.ast, ast.Assign) and norm(n.ast.targets[0]) == cname for n in path[i0 + 1:])
+                tested_after = False
+                for n in path[i0 + 1:]:
+                    if n.kind == "false" and isinstance(n.ast, ast.Compare) and norm(n.ast.left) == cname and isinstance(n.ast.ops[0], (ast.Gt, ast.GtE)) \
+                            and isinstance(n.ast.comparators[0], ast.Constant):
+                        te = next((x for x in n.owner.succ if x.kind == "true"), None) if n.owner is not None else None
+                        if te is not None and q.branch_always_raises(cfg, te):
+                            tested_after = True
+                if not reset_after and tested_after:
+                    ok = True
+            if not ok:
+                stmts = [norm(n.ast)[:40] for n in path if n.kind in ("true", "false") and n is not start]
+                return "", ("an iteration of the decoder loop that may produce nothing and is not known to leave input in the decoder [" + " ; ".join(
+                    ("" if n.kind == "true" else "not ") + norm(n.ast)[:36] for n in path if n.kind in ("true", "false") and n is not start) +
+                    "] neither steps a stall counter (by a positive constant, without resetting it) nor passes the counter's test whose true outcome raises: with a declared "
+                    "size larger than the decodable data the loop spins forever")
+        return "V5", "every iteration that may produce nothing either leaves input in the decoder or steps the stall counter towards its raising test"
     return "", (f"the loop ends only when {var} reaches 0, and {var} changes only by the amount the decoder returns: when the decoder "
                 "returns nothing and no input remains (declared size larger than the decodable data, or a decoder left at "
                 "end-of-stream by an earlier pass) the loop spins forever")
+
+
+def _nonempty_polarity(cond: ast.AST, pol: bool, produced: Set[str]) -> bool:
+    """does (cond has truth value pol) say that something WAS produced?  len(x) > 0 true, len(x) == 0 false, x true, `len(x) >= 1` true"""
+    if isinstance(cond, ast.Compare) and len(cond.ops) == 1:
+        op, r = cond.ops[0], cond.comparators[0]
+        if isinstance(r, ast.Constant) and r.value == 0:
+            if isinstance(op, (ast.Gt, ast.NotEq)):
+                return pol
+            if isinstance(op, (ast.Eq, ast.LtE)):
+                return not pol
+        if isinstance(r, ast.Constant) and r.value == 1:
+            if isinstance(op, ast.GtE):
+                return pol
+            if isinstance(op, ast.Lt):
+                return not pol
+        return False
+    if isinstance(cond, ast.Name):
+        return pol
+    if isinstance(cond, ast.Call) and dotted(cond.func) == "len":
+        return pol
+    return False
 
 
 def _empty_polarity(cond: ast.AST, pol: bool, produced: Set[str]) -> bool:
